@@ -7,7 +7,8 @@
                                              timeout is short (the upstream never answers it in time); probe = warm-up
                                              request after an upstream close (may fail while the pool reconnects)
      urecv{tok,uid,htok}                     the upstream read a request under upstream id uid: token in its body (tok) and in its header (htok)
-     usend{tok,uid,kind,for}                 the upstream is about to write a reply echoing tok in header and body under id uid
+     usend{tok,uid,kind,for,bare}            the upstream is about to write a reply echoing tok in header and body (bare: in the
+                                             header only, the reply has no body) under id uid
                                              (kind ans | dup | ghost: success status; kind err: error status, tok is the error
                                              answer's own token, for = token of the request it answers)
      uclose{}                                the upstream is about to close the connection(s) of the proxy
@@ -21,9 +22,10 @@ EXTENDS Integers, Sequences, FiniteSets, TLC, XJudge, VTrace
 VARIABLES open,      \* <<conn, dsid>> -> [tok, short, unstable, closedSince, cc, gone] : requests the client is waiting for
           done,      \* <<conn, dsid>> already answered in this run
           produced,  \* tokens the upstream has answered
+          pbare,     \* ... those it answered without a body
           unstable,  \* an upstream close happened and no request sent after it has succeeded yet
           closes
-tv == <<open, done, produced, unstable, closes>>
+tv == <<open, done, produced, pbare, unstable, closes>>
 tvars == <<tv, l>>
 
 Kinds == {"second-reply-for-request", "reply-for-unknown-id", "foreign-response-header", "foreign-response-body",
@@ -31,18 +33,18 @@ Kinds == {"second-reply-for-request", "reply-for-unknown-id", "foreign-response-
           "error-reply-header-and-body-from-different-exchanges", "foreign-error-response"}
 
 Empty == [x \in {} |-> 0]
-TraceInit == l = 1 /\ open = Empty /\ done = {} /\ produced = {} /\ unstable = FALSE /\ closes = 0
+TraceInit == l = 1 /\ open = Empty /\ done = {} /\ produced = {} /\ pbare = {} /\ unstable = FALSE /\ closes = 0
 
-TRun == IsEvent("run") /\ open' = Empty /\ done' = {} /\ produced' = {} /\ unstable' = FALSE /\ closes' = 0
+TRun == IsEvent("run") /\ open' = Empty /\ done' = {} /\ produced' = {} /\ pbare' = {} /\ unstable' = FALSE /\ closes' = 0
 
 TCsend == /\ IsEvent("csend")
           /\ LET k == <<Ev.conn, Ev.dsid>>
                  q == [tok |-> Ev.tok, short |-> Ev.short, unstable |-> unstable \/ Ev.probe, closedSince |-> FALSE, cc |-> closes, gone |-> FALSE,
-                       nil |-> "", errs |-> {}]
+                       nil |-> "", errs |-> {}, body |-> Ev.tok]
              IN /\ k \notin DOMAIN open      \* the harness never reuses an id that is still outstanding on the connection
                 /\ open' = [x \in DOMAIN open \cup {k} |-> IF x = k THEN q ELSE open[x]]
                 /\ done' = done \ {k}
-          /\ UNCHANGED <<produced, unstable, closes>>
+          /\ UNCHANGED <<produced, pbare, unstable, closes>>
 
 TUrecv == /\ IsEvent("urecv")
           /\ Expect(~Has(Ev, "htok") \/ Ev.htok = Ev.tok, "request-header-and-body-from-different-exchanges")
@@ -51,29 +53,31 @@ TUrecv == /\ IsEvent("urecv")
 TUsend == /\ IsEvent("usend")
           /\ IF Ev.kind = "err"
              THEN /\ open' = [x \in DOMAIN open |-> IF open[x].tok = Ev.for THEN [open[x] EXCEPT !.errs = @ \cup {Ev.tok}] ELSE open[x]]
-                  /\ UNCHANGED produced
-             ELSE produced' = produced \cup {Ev.tok} /\ UNCHANGED open
+                  /\ UNCHANGED <<produced, pbare>>
+             ELSE /\ produced' = produced \cup {Ev.tok} /\ UNCHANGED open
+                  /\ pbare' = IF Has(Ev, "bare") /\ Ev.bare THEN pbare \cup {Ev.tok} ELSE pbare
           /\ UNCHANGED <<done, unstable, closes>>
 TUclose == /\ IsEvent("uclose")
            /\ open' = [x \in DOMAIN open |-> [open[x] EXCEPT !.closedSince = TRUE]]
            /\ unstable' = TRUE /\ closes' = closes + 1
-           /\ UNCHANGED <<done, produced>>
+           /\ UNCHANGED <<done, produced, pbare>>
 
 TCrecv == /\ IsEvent("crecv")
           /\ LET k == <<Ev.conn, Ev.id>>
                  has == k \in DOMAIN open
-                 q == IF has THEN open[k] ELSE [tok |-> "", short |-> FALSE, unstable |-> FALSE, closedSince |-> FALSE, cc |-> 0, gone |-> FALSE,
-                                                 nil |-> "", errs |-> {}]
+                 q == IF has THEN [open[k] EXCEPT !.body = IF open[k].tok \in pbare THEN "" ELSE open[k].tok]
+                      ELSE [tok |-> "", short |-> FALSE, unstable |-> FALSE, closedSince |-> FALSE, cc |-> 0, gone |-> FALSE,
+                            nil |-> "", errs |-> {}, body |-> ""]
                  v == Verdict(has, k \in done, q, Ev.ok, Ev.htok, Ev.btok, Ev.htok \in produced)
              IN /\ \A kind \in Kinds : Expect(kind \notin v, kind)
                 /\ open' = IF has THEN [x \in DOMAIN open \ {k} |-> open[x]] ELSE open
                 /\ done' = IF has THEN done \cup {k} ELSE done
                 /\ unstable' = IF has /\ Ev.ok /\ q.cc = closes THEN FALSE ELSE unstable
-          /\ UNCHANGED <<produced, closes>>
+          /\ UNCHANGED <<produced, pbare, closes>>
 
 TCclose == /\ IsEvent("cclose")
            /\ open' = [x \in DOMAIN open |-> IF x[1] = Ev.conn THEN [open[x] EXCEPT !.gone = TRUE] ELSE open[x]]
-           /\ UNCHANGED <<done, produced, unstable, closes>>
+           /\ UNCHANGED <<done, produced, pbare, unstable, closes>>
 
 TQuiesce == /\ IsEvent("quiesce")
             /\ Expect(~Ev.patient \/ \A k \in DOMAIN open : open[k].gone, "request-without-reply")
